@@ -25,6 +25,12 @@ programs and all schedules in coq/props/C20.v.  This module ties the model to th
       R2 finds (handler never ran, KeyboardInterrupt/SystemExit out of the middle of a block, no Enter recorded,
       process killed ...): those are reported as disagreements IN ADDITION.  When the plan's per-file unit
       structure is unusable D falls back to "every file whole (some undisturbed state) + aborting exit";
+ (E)  the process ENVIRONMENT is a dimension of R2/D (and, for EIO, of R1): besides healthy captured stdout/stderr the
+      signalled runs are repeated with stdout+stderr being pipes whose read end is closed (EPIPE), with stdout/stderr
+      objects whose write raises OSError(EIO) (terminal gone), and with stdin (fd 0) closed -- judged by the same
+      verdict; where the abort report itself cannot be written, any failing end of the run is accepted as the exit
+      status, the files are judged all the same.  An environment in which the tool cannot even do its undisturbed
+      work (it prints to stdout in normal operation) is replaced by its stderr-only variant or skipped (counted);
  (V)  vm_compute cross-check of the extracted binary.
 """
 import os, sys, json, errno, signal, select, shutil, time, hashlib, builtins, contextlib, io, importlib, itertools, re, traceback
@@ -54,7 +60,8 @@ MANIFEST = {
     "note": "NOT covered: signal delivery between arbitrary bytecodes (CPython delivers between bytecodes; the harness injects at "
             "file-operation / block-boundary events and, in thorough mode, at source-line events of the tool, mutagen/id3/_file.py, "
             "mutagen/_util.py and mutagen/ogg.py). The tools' control flow is not modelled: `protected` is checked on the traces of the "
-            "exercised invocations only. block() is not re-entrant and has no try/finally (mirrored in the model). A mid3v2 invocation "
+            "exercised invocations only. block() is not re-entrant and has no try/finally (mirrored in the model). Process environments exercised: healthy, closed stdout/stderr pipes, EIO on "
+            "stdout/stderr, closed stdin -- not: full disks, read-only files, resource limits, threads. A mid3v2 invocation "
             "combining --delete-frames with edits updates each file twice (two blocks): a signal finishes the update in progress, "
             "not both.",
     "technique": "Coq proof by induction over event lists (Model.Signal) + trace correspondence with real signals via the extracted OCaml model "
@@ -66,7 +73,9 @@ RULE = ("R1: every well-formed event list over {Sig,Enter,Leave,FileOp,Other,Exn
         "mid3iconv, mid3cp, moggsplit, and -d -s -C -p, two-phase, --remove-v1 --force-v1 --merge --write-v1 --m3u variants) with >= 2 files, a "
         "real signal at EVERY event index of the run (quick: SIGINT every index, SIGTERM/SIGHUP on a stride with rng offset, plus every source-line "
         "event of two small invocations; thorough: all three at every index plus every source-line event of every invocation). non-trivial = a real signal was delivered to the running tool (R2) / the event list contains a Sig (R1); distinct by "
-        "(case, signal, index, mode)")
+        "(case, signal, index, mode, environment). Environments (closed stdout/stderr pipes, EIO-raising stdout/stderr, closed stdin): quick = SIGINT at every "
+        "index in each environment for one invocation per tool (runs over 200 events: every index once, environment rotating), signal x environment "
+        "rotating on a stride of 5 elsewhere; thorough = every index in each environment with the signal rotating; R1 lists alternate plain/EIO streams")
 
 SIGNAMES = ["SIGINT", "SIGTERM", "SIGHUP"]
 REAL_OPEN = builtins.open
@@ -619,6 +628,7 @@ def build_plan(ctx, case, linemode, par, envs=()):
     P.fatal = False          # no usable undisturbed reference: signalled runs cannot be judged at all
     P.weak = False           # the per-file unit structure is unknown: judge by whole-file states + exit status only
     P.reported = set()
+    P.envs = {}
     for r in res:
         if r.get("error") or r.get("timeout") or "killed_by" in r:
             P.problems.append("undisturbed run failed: %s" % (r.get("error") or r))
@@ -719,9 +729,10 @@ def check_run(ctx, P, signame, t, r, mode, env="plain"):
 
     def viol(what, **extra):
         # one violation per run, one per (case, kind) per check: a single broken schedule is enough to replay
-        key = "%s: %s%s" % (case.id, what, "" if env == "plain" else " [environment: %s]" % ENV_TEXT.get(env, env))
-        if not reported and key not in P.reported:
-            P.reported.add(key)
+        base = "%s: %s" % (case.id, what)           # one schedule per kind, whatever the environment
+        key = base + ("" if env == "plain" else " [environment: %s]" % ENV_TEXT.get(env, env))
+        if not reported and base not in P.reported:
+            P.reported.add(base)
             ctx.violation("oracle", key, dict(data, **extra))
         reported.append(key)
         return False
@@ -833,11 +844,12 @@ JOB_CHUNK = 96
 
 
 def check_case(ctx, case, schedule, linemode, par, deadline=None):
-    """schedule: function (number of events) -> list of (signame, index); deadline: wall-clock time after which no
-    further signalled runs are started (escalated search)"""
+    """schedule: function (number of events, case) -> list of (signame, index, environment name); deadline: wall-clock
+    time after which no further signalled runs are started (escalated search)"""
     mode = "line" if linemode else "event"
     use_model = getattr(ctx, "use_model", True)
-    P = build_plan(ctx, case, linemode, par)
+    wanted = schedule(None, case)                # which environments this schedule will ask for
+    P = build_plan(ctx, case, linemode, par, wanted)
     for p in P.problems:
         ctx.disagree("c20.plan", "%s %s: %s" % (case.id, mode, p), {"case": case.id, "mode": mode})
     if P.fatal:                                  # no undisturbed reference to judge signalled runs against
@@ -856,19 +868,25 @@ def check_case(ctx, case, schedule, linemode, par, deadline=None):
         und = parse_run(ctx.model.call("sig_run", *P.mprog))
         if und is None or und["out"] != "Finished" or und["steps"] != len(P.prog):
             ctx.disagree("c20.tool", "%s %s: model does not finish the undisturbed program: %s" % (case.id, mode, und), {"case": case.id})
-    todo = schedule(len(P.prog))
+    todo = schedule(len(P.prog), case)
     done = 0
     nviol0 = len(ctx.violations)
-    chunk = JOB_CHUNK if deadline is not None else max(1, len(todo))
-    for c in range(0, len(todo), chunk):
-        if deadline is not None and time.time() > deadline:
-            ctx.count("runs-skipped-search-budget", len(todo) - done)
+    # healthy environment first; the other environments only add information where the tool is fine in the healthy one
+    for part_envs in (False, True):
+        if part_envs and len(ctx.violations) > nviol0:
             break
-        part = todo[c:c + chunk]
-        jobs = [{"case": case, "kind": "trace", "at": t, "sig": s, "linemode": linemode} for s, t in part]
-        for (s, t), r in zip(part, run_jobs(jobs, par)):
-            check_run(ctx, P, s, t, r, mode)
-        done += len(part)
+        sub = [(s, t, P.envs.get(e)) if e != "plain" else (s, t, e) for s, t, e in todo if (e != "plain") == part_envs]
+        sub = [x for x in sub if x[2] is not None]
+        chunk = JOB_CHUNK if deadline is not None else max(1, len(sub))
+        for c in range(0, len(sub), chunk):
+            if deadline is not None and time.time() > deadline:
+                ctx.count("runs-skipped-search-budget", len(sub) - c)
+                break
+            part = sub[c:c + chunk]
+            jobs = [{"case": case, "kind": "trace", "at": t, "sig": s, "linemode": linemode, "env": e} for s, t, e in part]
+            for (s, t, e), r in zip(part, run_jobs(jobs, par)):
+                check_run(ctx, P, s, t, r, mode, e)
+            done += len(part)
     ctx.count("runs:%s/%s" % (case.id, mode), done)
     ctx.violations[nviol0:] = sorted(ctx.violations[nviol0:], key=viol_rank)      # stable: the most telling schedule first
     return P
@@ -938,7 +956,8 @@ def sm_lists(rng, maxlen, nrandom):
 
 
 def sm_child(lists, wfd):
-    """drive the real class: Sig = a real signal through whatever init() installed.  lists: [(events, signal name)].
+    """drive the real class: Sig = a real signal through whatever init() installed.  lists: [(events, signal name,
+    environment "plain" | "eio")].
     Every list starts from the dispositions of a freshly started interpreter (the state in which a console script
     calls init()); one result line is written per list as soon as it is done, so that a run in which the signal
     kills the process (no handler installed for it) still tells the parent which list did it."""
@@ -948,17 +967,21 @@ def sm_child(lists, wfd):
         if missing:                               # the class is not the one this driver knows: nothing to judge here
             os.write(wfd, json.dumps({"undrivable": "SignalHandler has no %s()" % "/".join(missing)}).encode() + b"\n")
             return
-        for l, signame in lists:
+        for item in lists:
+            l, signame, env = item if len(item) == 3 else (item[0], item[1], "plain")
             fresh_dispositions()
+            setup_env(env)                        # "plain" / "eio": in-process streams only
             h = SignalHandler()
             h.init()
-            stack, ops, steps, res = [], [], 0, "Finished"
+            stack, ops, steps, res, at_signal = [], [], 0, "Finished", False
             try:
                 for e in l:
                     steps += 1
                     if e == "S":
+                        at_signal = True
                         os.kill(os.getpid(), getattr(signal, signame))
                         _nop()
+                        at_signal = False
                     elif e == "E":
                         cm = h.block()
                         cm.__enter__()
@@ -982,8 +1005,10 @@ def sm_child(lists, wfd):
                 res = "Exit"
             except ValueError:
                 res = "Crashed"
-            except BaseException as exc:          # e.g. KeyboardInterrupt: the signal went to somebody else's handler
-                res = "Raised:" + type(exc).__name__
+            except BaseException as exc:
+                # out of the signal delivery (KeyboardInterrupt: somebody else's handler; OSError: the handler's own I/O
+                # failed) -- an observation of the class; anywhere else the driver could not drive this class
+                res = ("RaisedAtSignal:" if at_signal else "Raised:") + type(exc).__name__
             line = json.dumps([res, steps, ops, bool(getattr(h, "_interrupted", None)), bool(getattr(h, "_nosig", None))]).encode() + b"\n"
             off = 0
             while off < len(line):
@@ -1033,12 +1058,13 @@ def drive_class(lists):
 
 def state_machine_correspondence(ctx, maxlen, nrandom):
     lists = sm_lists(ctx.rng, maxlen, nrandom)
-    pairs = [(l, SIGNAMES[n % 3]) for n, l in enumerate(lists)]
+    # signal by list number; every second triple of lists with stdout/stderr whose write raises EIO
+    pairs = [(l, SIGNAMES[n % 3], "eio" if (n // 3) % 2 else "plain") for n, l in enumerate(lists)]
     obs, problem = drive_class(pairs)
     if problem:
         ctx.disagree("c20.class", "driving the real SignalHandler failed: %s" % problem, {})
     nd = 0
-    for (l, signame), o in zip(pairs, obs):
+    for (l, signame, env), o in zip(pairs, obs):
         pr = None
         if getattr(ctx, "use_model", True):
             pr = parse_run(ctx.model.call("sig_run", *l)) if l else parse_run(ctx.model.call("sig_run"))
@@ -1049,18 +1075,18 @@ def state_machine_correspondence(ctx, maxlen, nrandom):
         if got != o:
             nd += 1
             if nd <= 3:
-                ctx.disagree("c20.class", "events %s (%s): real SignalHandler %s, model %s" % (" ".join(l), signame, o, got),
-                             {"events": l, "signal": signame})
+                ctx.disagree("c20.class", "events %s (%s, %s): real SignalHandler %s, model %s" % (" ".join(l), signame, env, o, got),
+                             {"events": l, "signal": signame, "environment": env})
             # is the difference a property failure?  a protected, exception-free program whose blocked work is cut or continued
-            direct_class_oracle(ctx, l, o, signame)
+            direct_class_oracle(ctx, l, o, signame, env)
 
 
-def direct_class_oracle(ctx, l, o, signame="SIGINT"):
+def direct_class_oracle(ctx, l, o, signame="SIGINT", env="plain"):
     """property statement on the class alone (no model): used when the class and the model differ"""
     prog = [e for e in l if e != "S"]
     if "X" in prog or "S" not in l or first_unprotected(prog) is not None:
         return
-    if o[0] not in ("Finished", "Exit", "Crashed", "Raised:KeyboardInterrupt") and not o[0].startswith("Killed:"):
+    if o[0] not in ("Finished", "Exit", "Crashed") and not o[0].startswith(("Killed:", "RaisedAtSignal:")):
         return                                    # the driver itself failed on this class (TypeError ...): a disagreement, not a verdict
     depth = 0
     for e in prog:
@@ -1081,13 +1107,14 @@ def direct_class_oracle(ctx, l, o, signame="SIGINT"):
         done = pre
     want_ops = [e[1:] for e in done if e[0] == "F"]
     # an unblocked signal "terminates immediately": so does Python's own KeyboardInterrupt on SIGINT / death by the signal
-    died = not inside and ((o[0] == "Raised:KeyboardInterrupt" and signame == "SIGINT" and o[2] == want_ops) or
-                           o[0] == "Killed:%d" % getattr(signal, signame))
+    died = not inside and ((o[0].startswith("RaisedAtSignal:") and o[2] == want_ops) or o[0] == "Killed:%d" % getattr(signal, signame))
     if (o[0] != "Exit" or o[2] != want_ops) and not died:
         key = "SignalHandler: " + ("blocked work not completed / run not aborted" if inside else "unblocked signal did not abort at once")
         ctx.count("class-oracle-failures")
+        if env != "plain":
+            key += " [environment: %s]" % ENV_TEXT.get(env, env)
         if not any(v["what"] == key and v["data"].get("signal") == signame for v in ctx.violations):   # one schedule per kind and signal
-            ctx.violation("oracle", key, {"runner": "c20.class", "events": l, "signal": signame, "observed": o, "expected_ops": want_ops,
+            ctx.violation("oracle", key, {"runner": "c20.class", "events": l, "signal": signame, "environment": env, "observed": o, "expected_ops": want_ops,
                                           "dispositions_before_init": "fresh interpreter (SIGINT default_int_handler, SIGTERM/SIGHUP SIG_DFL)"})
 
 
@@ -1151,25 +1178,60 @@ def parallelism():
     return max(2, min(8, n // 2))
 
 
-def quick_schedule(rng):
-    def sched(n):
-        todo = [("SIGINT", t) for t in range(n)]
+def primary_cases(cases):
+    """one invocation per tool (the first listed): the environment dimension is explored densely on these"""
+    first = {}
+    for c in cases:
+        first.setdefault(c.tool, c.id)
+    return set(first.values())
+
+
+def _stride_envs(n, off, stride=5):
+    """every stride-th index, signal and environment rotating so that all 9 pairs occur"""
+    out = []
+    for t in range(off, n, stride):
+        k = t // stride
+        out.append((SIGNAMES[k % 3], t, ENVS[(k + k // 3 + off) % 3]))
+    return out
+
+
+def quick_schedule(rng, primary):
+    """schedules return the environment names they use when called with n = None"""
+    def sched(n, case):
+        if n is None:
+            return list(ENVS)
+        todo = [("SIGINT", t, "plain") for t in range(n)]
         for s in ("SIGTERM", "SIGHUP"):
             stride = 5
             off = rng.randrange(stride)
-            todo += [(s, t) for t in range(off, n, stride)]
+            todo += [(s, t, "plain") for t in range(off, n, stride)]
+        off = rng.randrange(5)
+        if case.id in primary:
+            if n <= 200:
+                todo += [("SIGINT", t, e) for e in ENVS for t in range(n)]
+            else:                                  # long runs: every index once, the environment rotating
+                todo += [("SIGINT", t, ENVS[(t + off) % 3]) for t in range(n)]
+            todo += [x for x in _stride_envs(n, off) if x[0] != "SIGINT"]
+        else:
+            todo += _stride_envs(n, off)
         return todo
     return sched
 
 
-def full_schedule(n):
-    return [(s, t) for s in SIGNAMES for t in range(n)]
+def full_schedule(n, case):
+    if n is None:
+        return list(ENVS)
+    todo = [(s, t, "plain") for s in SIGNAMES for t in range(n)]
+    todo += [(SIGNAMES[(t + i) % 3], t, e) for i, e in enumerate(ENVS) for t in range(n)]
+    return todo
 
 
 def line_schedule(rng):
-    def sched(n):
+    def sched(n, case):
+        if n is None:
+            return []
         off = rng.randrange(3)
-        return [(SIGNAMES[(t + off) % 3], t) for t in range(n)]
+        return [(SIGNAMES[(t + off) % 3], t, "plain") for t in range(n)]
     return sched
 
 
@@ -1182,7 +1244,7 @@ def run(ctx):
             if len(failing) >= 3:                # enough concrete failing schedules; do not flood the replay directory
                 ctx.notes["stopped_early"] = "violations in %s" % sorted(failing)
                 break
-            check_case(ctx, case, full_schedule if ctx.thorough else quick_schedule(ctx.rng), False, par)
+            check_case(ctx, case, full_schedule if ctx.thorough else quick_schedule(ctx.rng, primary_cases(cases)), False, par)
             failing = set(v["data"].get("case") for v in ctx.violations if v["data"].get("case"))
         for case in cases:                       # source-line granularity: two small invocations in quick, all in thorough
             if failing:
@@ -1238,11 +1300,11 @@ def replay(ctx, payload):
             run(ctx)
             return bool(ctx.violations or ctx.disagreements)
         if d["runner"] == "c20.class":
-            l, signame = d["events"], d.get("signal", "SIGINT")
-            obs, problem = drive_class([(l, signame)])
+            l, signame, env = d["events"], d.get("signal", "SIGINT"), d.get("environment", "plain")
+            obs, problem = drive_class([(l, signame, env)])
             if not obs:
                 return True
-            direct_class_oracle(ctx, l, obs[0], signame)
+            direct_class_oracle(ctx, l, obs[0], signame, env)
             return bool(ctx.violations)
         import random
         cases = [c for c in make_cases(random.Random("C20-cases-%d" % payload.get("seed", ctx.seed))) if c.id == d["case"]]
@@ -1252,11 +1314,12 @@ def replay(ctx, payload):
         if case.argv() != d.get("argv"):
             ctx.notes["replay"] = "invocation rebuilt from the seed differs from the recorded argv"
         linemode = d["mode"] == "line"
+        env = d.get("environment", "plain")
         P = build_plan(ctx, case, linemode, 2)
         if P.fatal:
             return True
-        r = run_jobs([{"case": case, "kind": "trace", "at": d["index"], "sig": d["signal"], "linemode": linemode}], 1)[0]
-        return not check_run(ctx, P, d["signal"], d["index"], r, d["mode"])
+        r = run_jobs([{"case": case, "kind": "trace", "at": d["index"], "sig": d["signal"], "linemode": linemode, "env": env}], 1)[0]
+        return not check_run(ctx, P, d["signal"], d["index"], r, d["mode"], env)
     finally:
         cleanup()
 
